@@ -621,6 +621,22 @@ Definition csv_read (reserved : list text) (nc : ncfg) (isdec : N -> bool) (d : 
       Some (fs, map (fun rw => map (fun k => (k, zip_lookup k names rw None)) fs) body)
   end.
 
+(* CsvfileReader's choice of the dialect: when the first row of the sample (the first [sample] characters), read as
+   plain comma-separated values, is not empty and consists of field names (after normalize_fieldname), the file is
+   read in the writer's own dialect; otherwise csv.Sniffer guesses ([sniff]: environment, an oracle).
+   [excel_on_names] is the GENERATED / observed fact that the reader does so. *)
+Definition header_is_field_names (reserved : list text) (nc : ncfg) (isdec : N -> bool) (h : row) : bool :=
+  match h with
+  | [] => false
+  | _ :: _ => forallb (fun c => valid_field_name (normalize reserved nc isdec c)) h
+  end.
+Definition first_row (rows : list row) : row := match rows with r :: _ => r | [] => [] end.
+Definition reader_delimiter (excel_on_names : bool) (reserved : list text) (nc : ncfg) (isdec : N -> bool)
+           (sample : N) (sniff : text -> N) (inp : text) : N :=
+  if excel_on_names
+     && header_is_field_names reserved nc isdec (first_row (csv_parse 44 (firstn (N.to_nat sample) inp)))
+  then 44 else sniff inp.
+
 (* ------------------------------------------------------------------------------------------ *)
 (* vocabulary of the property statements *)
 
